@@ -133,6 +133,20 @@ def rule_e(prog, rep):
         rep.check(m_ok and u_ok, "R-C02-e", where, "margin slice is coordinate -1, uncommon slice is [:-1] on the differenced axis", "", "margin %s, uncommon %s" % (tm.show(margin_idx)[:50], tm.show(unc)[:50]))
         a_ok = axis_kw is not None and axis_kw.op == "binop" and axis_kw.args[0] == "+" and tm.contains(axis_kw, lambda x: x.op == "call" and tm.callee_name(x) == "builtins.len")
         rep.check(a_ok, "R-C02-e", where, "the sum runs along the differenced axis, offset by the number of extra axes", "axis = len(scaffold) + axis", "axis is %s" % (axis_kw and tm.show(axis_kw)[:50]))
+    # no axis is skipped: the store is unconditional inside the per-axis loop
+    from sa.symex import flat_guards as _fg
+    g = _fg(e.guards)
+    if g:
+        rows_vs_entries = any(c.op == "cmp" and c.args[0] in ("==", "!=", ">=", "<") and tm.contains(c, lambda x: x.op == "call" and tm.callee_name(x) == "builtins.sum")
+                              and tm.contains(c, lambda x: x.op == "sub" and x.args[0].op == "attr" and x.args[0].args[1] == "shape" and tm.is_const(x.args[1], 0)) for c, pol in g)
+        if rows_vs_entries:
+            rep.violated("R-C02-e", "%s@%d" % (where, e.line), "the differencing pass of an axis is not skipped",
+                         "the pass is skipped when the listed row ids add up to shape[0] (the number of ROWS): for a dimension with several columns the entries of all columns are summed, so the total can reach the row count while columns still hold the common value - their common cells are never reconstructed",
+                         witness={"inputs": "a (N, 2) dimension with one full column and one all-common column, crossed with another dimension: the common cells of that axis stay 0 and are reported missing"})
+        else:
+            rep.undecided("R-C02-e", "%s@%d" % (where, e.line), "the differencing pass of an axis is not skipped", "the store is conditional on %s" % [tm.show(c)[:40] for c, p in g])
+    else:
+        rep.proved("R-C02-e", where, "the differencing pass of an axis is not skipped", "unconditional inside the per-axis loop")
     # every axis in order
     li = I.loopinfo[e.loops[0]]
     it = li.get("iter")
